@@ -164,6 +164,14 @@ def validate(ctx, sd, tf, classes, other_sink=None):
             lines = []
             break
     ctx.cover(executions_rejected=len(rej), executions_total=total)
+    if not ctx.quick and not rej and total:
+        # vacuity guard (thorough tier): which actions of the trace specification were never taken by any execution
+        try:
+            rc = tlc.run(ctx, sd, "RpcTrace", cfg="RpcTrace.cfg", workers=1, timeout=3400, heap="8g", allow_violation=True, dfs_queue=True, coverage=True)
+            never = sorted({k.split("@")[0] for k in tlc.uncovered_actions(rc)})
+            ctx.cover(trace_spec_actions_never_taken=never)
+        except Inconclusive:
+            ctx.note("coverage run of RpcTrace did not finish; action coverage not recorded")
     return rej, states
 
 
